@@ -213,7 +213,39 @@ def run_case(case, res):
                     ps = [fresh() for _ in range(k)]
                     desc = f"{op}({k})"
                     src_list = None
-                    if a % 5 == 4:
+                    if a % 7 == 5 and op == "extend" and n >= 1:
+                        # the worklist idiom: the iterable walks the very list that is being extended (like
+                        # lst.extend(f(x) for x in lst)); every element - appended ones included - is visited until the
+                        # iterable has produced k payloads
+                        desc = f"extend({k} payloads produced while walking the list itself)"
+
+                        def walking():
+                            made = 0
+                            for _ in l:
+                                if made == k:
+                                    return
+                                yield ps[made]
+                                made += 1
+                        l.extend(walking())
+                    elif a % 7 == 6:
+                        # an array-like container: its truth value is ambiguous / false although it has elements
+                        class _Arr:
+                            def __init__(self, items):
+                                self.items = list(items)
+
+                            def __iter__(self):
+                                return iter(self.items)
+
+                            def __len__(self):
+                                return len(self.items)
+
+                            def __bool__(self):
+                                if len(self.items) > 1:
+                                    raise ValueError("The truth value of an array with more than one element is ambiguous")
+                                return False
+                        desc = f"{op}(array-like of {k})"
+                        (l.extend if op == "extend" else l.pre_extend)(_Arr(ps))
+                    elif a % 5 == 4:
                         # the payloads come from another DoublyLinkedList (an iterable like any other): afterwards the two
                         # lists share nothing - the source is intact and changing it does not show in this list
                         src_list = DoublyLinkedList(ps)
